@@ -5,8 +5,8 @@
 set -u
 export GOFLAGS=-mod=mod GOPROXY=off GOSUMDB=off GOTOOLCHAIN=local
 P=$1; X=$2; PKG=$3; TIER=${4:-quick}
-SRC=/tmp/seed/$P/out/$X
-DST=/verif/seeded/$P-$X
+SRC=${SEEDROOT:-/tmp/seed}/$P/out/$X
+DST=/verif/seeded/$P-${TAG:-}$X
 mkdir -p $DST
 cp $SRC/patch.diff $DST/patch.diff; cp $SRC/zz_demo_test.go $DST/; cp $SRC/notes.md $DST/ 2>/dev/null
 W=$(mktemp -d /tmp/seedw.XXXX); rmdir $W
@@ -17,7 +17,7 @@ res() { echo "$1" | tee -a $DST/confirm.log; }
 : > $DST/confirm.log
 # demo on original
 cp $DST/zz_demo_test.go $W/$PKG/
-(cd $W/$PKG && go test -modfile $T/go.mod -vet=off -count=1 -run 'Demo|ZZ|Zz|zz' . >$T/o1 2>&1); r1=$?
+(cd $W/$PKG && go test -modfile $T/go.mod -vet=off -count=1 -run 'Demo|ZZ|Zz|zz' -timeout 120s . >$T/o1 2>&1); r1=$?
 res "demo on original tree: exit $r1 (expect 0)"
 rm $W/$PKG/zz_demo_test.go
 if ! git -C $W apply $DST/patch.diff; then res "PATCH DOES NOT APPLY"; git -C /repo worktree remove --force $W; exit 8; fi
@@ -25,7 +25,7 @@ if ! git -C $W apply $DST/patch.diff; then res "PATCH DOES NOT APPLY"; git -C /r
 (cd $MODDIR && go test -modfile $T/go.mod -vet=off -count=1 ./... >$T/t 2>&1); rt=$?
 res "existing suite with change: exit $rt; failing packages: $(grep -c '^FAIL' $T/t) ($(grep '^FAIL' $T/t | grep -v 'licenseclassifier\s' | head -3 | tr '\n' ' '))"
 cp $DST/zz_demo_test.go $W/$PKG/
-(cd $W/$PKG && go test -modfile $T/go.mod -vet=off -count=1 -run 'Demo|ZZ|Zz|zz' . >$T/o2 2>&1); r2=$?
+(cd $W/$PKG && go test -modfile $T/go.mod -vet=off -count=1 -run 'Demo|ZZ|Zz|zz' -timeout 120s . >$T/o2 2>&1); r2=$?
 res "demo with change: exit $r2 (expect non-zero)"
 git -C /repo worktree remove --force $W; rm -rf $T
 # now our check on /repo itself
